@@ -732,6 +732,59 @@ func propC07(r *Run, w *World) {
 		r.Check(n == 1, "syscall name lookup sites", x.toCmd.Pos(), "", fmt.Sprintf("%d", n))
 	}
 
+	// R6
+	r.Rule("C07.R6", "the decoder takes the wire words as they are: fromAuditRuleData stores Fields[i], Values[i] and FieldFlags[i] of the wire header into fields/values/fieldFlags with one index, unmodified (a mask on the flags word must keep every operator bit of operatorsTable)", 3)
+	{
+		fn := x.fromARD
+		var opBits uint64
+		if ents, _, _, err := w.MapLit("rule", "operatorsTable"); err == nil {
+			for _, e := range ents {
+				if v, ok := cUint(e.ValC); ok {
+					opBits |= v
+				}
+			}
+		}
+		got := map[string]ssa.Value{}
+		for _, st := range storesOf(fn) {
+			t := AddrTerm(st.Addr)
+			for _, f := range []string{"fields", "values", "fieldFlags"} {
+				if strings.HasPrefix(t, "p0."+f+"[") {
+					got[f] = st.Val
+				}
+			}
+		}
+		for f, src := range map[string]string{"fields": "Fields", "values": "Values", "fieldFlags": "FieldFlags"} {
+			v := got[f]
+			ok := false
+			detail := "no indexed store into " + f
+			if v != nil {
+				val := stripConv(v)
+				// value-preserving type change of the element (field(uint32), operator(uint32)) is fine
+				if cv, isCv := val.(*ssa.Convert); isCv {
+					st, _ := cv.X.Type().Underlying().(*types.Basic)
+					dt, _ := cv.Type().Underlying().(*types.Basic)
+					if st != nil && dt != nil && st.Kind() == types.Uint32 && dt.Kind() == types.Uint32 {
+						val = stripConv(cv.X)
+					}
+				}
+				mask := uint64(0xffffffff)
+				if bo, isBo := val.(*ssa.BinOp); isBo && bo.Op == token.AND {
+					if k, isK := constInt(bo.Y); isK {
+						mask, val = uint64(uint32(k)), stripConv(bo.X)
+					} else if k, isK := constInt(bo.X); isK {
+						mask, val = uint64(uint32(k)), stripConv(bo.Y)
+					}
+				}
+				t := Term(val)
+				okSrc := strings.HasPrefix(t, "p1.auditRuleHeader."+src+"[") || strings.HasPrefix(t, "rule.field(p1.auditRuleHeader."+src+"[") || strings.HasPrefix(t, "rule.operator(p1.auditRuleHeader."+src+"[")
+				okMask := mask == 0xffffffff || (f == "fieldFlags" && opBits != 0 && mask&opBits == opBits)
+				ok = okSrc && okMask
+				detail = fmt.Sprintf("%s[i] is filled from %s with mask %#x (operator bits %#x)", f, Term(v), mask, opBits)
+			}
+			r.Check(ok, "decoder copies "+src, fn.Pos(), "unmodified", "the decoder does not take "+src+"[i] as it is on the wire: "+detail+": a listed rule no longer says what was installed")
+		}
+	}
+
 	// R5
 	r.Rule("C07.R5", "string-class field sets agree: fromAuditRuleData, ToCommandLine and addFilter treat the same set of field codes as strings", 3)
 	{
